@@ -304,8 +304,24 @@ func runC19(r *simkit.Run) {
 				}
 				exp[cn.nd.name] = e
 			}
+			for _, a := range exp {
+				for _, b := range exp {
+					if a.ptr != b.ptr {
+						r.Probe("divergent-pointers-in-slot")
+					}
+				}
+			}
 			before := len(trigs)
 			lastKeys = map[string][]keysMsg{}
+			type ptrRow struct {
+				val int64
+				ok  bool
+			}
+			ptrBefore := map[string]ptrRow{}
+			for _, cn := range cns {
+				val, _, ok := pointerOf(cn.nd)
+				ptrBefore[cn.nd.name] = ptrRow{val, ok}
+			}
 			for _, cn := range who {
 				cn := cn
 				sl := slot
@@ -352,10 +368,15 @@ func runC19(r *simkit.Run) {
 				}
 				r.Probe("triggers-checked")
 			}
-			// (c) pointer after keys
+			// (c) pointer after keys; the pointer value moves only through a processed keys message
 			for _, cn := range cns {
 				ks := lastKeys[cn.nd.name]
 				if len(ks) == 0 {
+					val, age, ok := pointerOf(cn.nd)
+					pb := ptrBefore[cn.nd.name]
+					if ok && (pb.ok && val != pb.val || !pb.ok && val != 0) {
+						r.Fail("pointer-moved-without-keys", "gnosis", "node %s processed no keys message in slot %d but its pointer value went from %+v to (value=%d, age=%v)", cn.nd.name, slot, pb, val, age)
+					}
 					continue
 				}
 				val, age, ok := pointerOf(cn.nd)
